@@ -4,9 +4,4 @@ package secp256k1
 
 func init() {
 	VerifSplitGLV = func(s *Scalar) (*Scalar, *Scalar) { return s.splitGLV() }
-	VerifMulGFlooredDiv = func(k, g *Scalar) *Scalar { return NewScalar().mulGFlooredDiv(k, g) }
-	VerifScalarMultVartimeGLV = func(v *Point, s *Scalar, p *Point) *Point { return v.scalarMultVartimeGLV(s, p) }
-	VerifGLVConsts = func() (*Scalar, *Scalar, *Scalar, *Scalar, *Scalar, *VerifFE) {
-		return scNegLambda, scNegB1, scNegB2, scG1, scG2, feBeta
-	}
 }
